@@ -753,3 +753,116 @@ func TestC11_LRUBound(t *testing.T) {
 		rec.Case(true, map[string]any{"lru_bound": true, "capacity": capacity, "writers": writers, "readers": readers, "ops_each": n, "ttl": ttl.String()}, "lru-bound")
 	})
 }
+
+// TestC11_SweepContention: a sweep over hundreds of expired entries overlaps with clears,
+// deletes, re-insertions and readers; afterwards the cache must still be one coherent
+// bounded LRU (whatever the sweep does internally, it behaves as if it ran at one instant).
+func TestC11_SweepContention(t *testing.T) {
+	rec := stat.For("C11")
+	rec.Rule("sweep contention: a cache of capacity 300-1200 holding 257..capacity entries that have all outlived a 0.3-1 ms lifetime is swept (CleanupExpired) while other goroutines clear it, delete and re-insert its oldest keys, look expired keys up and read Size / Stats / Keys; 6 rounds per case; built with -race. Oracle: readers never see a size outside [0, capacity]; once quiet, Size == len(Keys) == Stats.Size; inserting `capacity` fresh keys then leaves exactly those keys, each retrievable.")
+	rapid.Check(t, func(t *rapid.T) {
+		capacity := rapid.SampledFrom([]int{300, 600, 1200}).Draw(t, "cap")
+		ttl := time.Duration(rapid.IntRange(300, 1000).Draw(t, "ttl-us")) * time.Microsecond
+		mode := rapid.SampledFrom([]string{"clear", "delete-reput", "get-reput", "mixed"}).Draw(t, "mode")
+		c := cache.NewLRUCache(capacity, ttl)
+		for round := 0; round < 6; round++ {
+			n := rapid.IntRange(257, capacity).Draw(t, "fill")
+			for i := 0; i < n; i++ {
+				c.Put(fmt.Sprintf("r%d-k%d", round, i), i)
+			}
+			time.Sleep(2 * ttl)
+			var wg sync.WaitGroup
+			var mu sync.Mutex
+			bad := ""
+			report := func(s string) {
+				mu.Lock()
+				if bad == "" {
+					bad = s
+				}
+				mu.Unlock()
+			}
+			start := make(chan struct{})
+			wg.Add(1)
+			go func() { defer wg.Done(); <-start; c.CleanupExpired() }()
+			for w := 0; w < 3; w++ {
+				wg.Add(1)
+				go func(w int) {
+					defer wg.Done()
+					<-start
+					// act while the sweep is under way: wait until it has removed a first stretch of entries
+					from := 0
+					if w != 2 {
+						for spin := 0; spin < 200000 && c.Size() > n-200; spin++ {
+							runtime.Gosched()
+						}
+						from = 200
+					}
+					for i := from; i < n; i++ {
+						k := fmt.Sprintf("r%d-k%d", round, i)
+						switch {
+						case mode == "clear" || (mode == "mixed" && w == 0):
+							if (i-from)%32 == 0 {
+								c.Clear()
+							}
+						case mode == "delete-reput" || (mode == "mixed" && w == 1):
+							c.Delete(k)
+							c.Put(k, -i)
+						default:
+							c.Get(k)
+							c.Put(k, -i)
+						}
+					}
+				}(w)
+			}
+			wg.Add(1)
+			go func() {
+				defer wg.Done()
+				<-start
+				for i := 0; i < 2000; i++ {
+					if s := c.Size(); s < 0 || s > capacity {
+						report(fmt.Sprintf("Size() = %d on a cache of capacity %d during a sweep", s, capacity))
+						return
+					}
+					if s := c.Stats().Size; s < 0 || s > capacity {
+						report(fmt.Sprintf("Stats().Size = %d on a cache of capacity %d during a sweep", s, capacity))
+						return
+					}
+				}
+			}()
+			close(start)
+			if !waitOrHang(&wg, 120*time.Second) {
+				t.Fatalf("sweep with concurrent %s did not finish within 120 s (deadlock)\n%s", mode, dumpStacks())
+			}
+			if bad == "" {
+				if sz, ks, st := c.Size(), c.Keys(), c.Stats(); sz != len(ks) || st.Size != sz || sz < 0 || sz > capacity {
+					bad = fmt.Sprintf("after the sweep: Size()=%d, %d keys listed, Stats().Size=%d (capacity %d)", sz, len(ks), st.Size, capacity)
+				}
+			}
+			if bad == "" {
+				// fill the cache with fresh keys: exactly these must remain (judged by the key listing,
+				// which does not depend on how much of the tiny lifetime has passed meanwhile)
+				for i := 0; i < capacity; i++ {
+					c.Put(fmt.Sprintf("r%d-fresh%d", round, i), i)
+				}
+				ks := c.Keys()
+				if sz := c.Size(); sz != capacity || len(ks) != capacity {
+					bad = fmt.Sprintf("after inserting %d fresh keys into a cache of that capacity Size() = %d and %d keys are listed", capacity, sz, len(ks))
+				} else {
+					prefix := fmt.Sprintf("r%d-fresh", round)
+					for _, k := range ks {
+						if !strings.HasPrefix(k, prefix) {
+							bad = fmt.Sprintf("after inserting %d fresh keys into a cache of that capacity the old key %q is still listed: a newer key was discarded in its place", capacity, k)
+							break
+						}
+					}
+				}
+			}
+			if bad != "" {
+				saveCase("C11", "sweep", map[string]any{"test": "TestC11_SweepContention", "note": "schedule-dependent; re-run the check", "capacity": capacity, "mode": mode, "failure": bad})
+				t.Fatalf("round %d, sweep of %d expired entries concurrent with %s: %s", round, n, mode, bad)
+			}
+			c.Clear()
+		}
+		rec.Case(true, map[string]any{"sweep_contention": true, "capacity": capacity, "ttl": ttl.String(), "mode": mode}, "sweep-contention", "sweep-mode:"+mode)
+	})
+}
